@@ -47,7 +47,8 @@ ASSUMPTIONS = [
     "stub-deviate pairs whose exact target lies within 1e-5 degree of a pole of the frame in which the cap is "
     "constructed (r = 90 degree from the equatorial construction centre of a rotated cap with psi = 0 / pi / 2pi; "
     "r = distance of a directly constructed cap's centre from a pole with the position angle pointing at that pole) "
-    "are kept off the lattice: the longitude there is 0/0 in the construction "
+    "are kept off the lattice (for a directly constructed cap only the SOUTH pole, from which the construction measures its polar angle; "
+    "exact north-pole landings are on the lattice and come out finite): the longitude there is 0/0 in the construction "
     "(NaN inside ~6e-7 degree of the pole); this set has measure ~1e-16 of the sphere for a continuous generator; "
     "the number of excluded pairs is in the evidence (counter excluded_on_construction_pole)",
     "box containment slack 1e-9 degree (not in the statement); box edges are either exactly at a pole or at least "
